@@ -133,10 +133,14 @@ func nillable(t types.Type) bool {
 const stepBudget = 5_000
 
 var steps int
+var budgetArmed bool // only while checkFunc calls ResultsOf: every check is linked into the one harness binary, and other checks' generators call ResultsOf too
 var errStepBudget = fmt.Errorf("step budget exceeded")
 
 func init() {
 	gengotypes.VerifStep = func(string) {
+		if !budgetArmed {
+			return
+		}
 		steps++
 		if steps > stepBudget {
 			panic(errStepBudget)
@@ -157,6 +161,8 @@ func checkFunc(res *core.Result, p gengotypes.Package, fn *types.Func, ctx strin
 		res.Fail(oracle, ctx+" "+oracle+" "+shortKey(name, ctx), fmt.Sprintf("%s: ", name)+fmt.Sprintf(format, a...), map[string]any{"func": name})
 	}
 	steps = 0
+	budgetArmed = true
+	defer func() { budgetArmed = false }()
 	if pk, pv, stack := core.Guard(func() { results, gotN = p.ResultsOf(fn) }); pk {
 		if pv == errStepBudget {
 			fail("no-termination-within-step-budget", "ResultsOf did not return within %d resolver steps (logical step budget; the largest count observed on the unchanged tree is below %d)", stepBudget, stepBudget/50)
